@@ -110,8 +110,18 @@ def run_property(pid, tier, seed, verbose=False):
   try:
     mod.build(p)
   except Undecided as e:
+    # The generator cannot bring the current source under contract (outside the
+    # subset / binding lost).  Nothing is proved.  A violation needs a replayed
+    # input, so the registered native drivers sweep the real code (bounded); a
+    # failing input is reported as a violation, none leaves the run undecided.
+    rec = native_fallback(p, pid, str(e), seed, tier)
+    write_evidence(p, ev_path, t0, [rec] if rec else [], [], undecided=str(e))
+    if rec:
+      print(f'  verification conditions could not be generated ({e}); bounded native search '
+            f'of the real code found a failing input')
+      print(f"VIOLATION property={pid} replay={rec['path']}")
+      return 1
     print(f'UNDECIDED property={pid} reason={e}')
-    write_evidence(p, ev_path, t0, [], [], undecided=str(e))
     return 2
   obs = p.sink.obligations
   if not obs:
@@ -138,6 +148,9 @@ def run_property(pid, tier, seed, verbose=False):
         line = f"KNOWN-FINDING: property={pid} {kf['what']}"
         if line not in known_lines:
           known_lines.append(line)
+        # what is proved: the obligation outside the recorded region
+        o.result = dict(o.result, status='unsat', backend='z3 (outside known-finding region)',
+                        known_region=kf.get('region'))
         continue
       # outside the recorded region: a different violation
     rec = make_replay(mod, p, pid, o)
@@ -185,6 +198,7 @@ def run_property(pid, tier, seed, verbose=False):
   for line in known_lines:
     print(line)
   if violations:
+    violations = [(o, rec) for o, rec in violations]
     for o, rec in violations:
       tail = '' if rec['native'].get('failed') else ' no-failing-input-found'
       name = o.name if o is not None else rec['obligation']
@@ -200,6 +214,39 @@ def run_property(pid, tier, seed, verbose=False):
   print(f'OK property={pid} obligations={len(obs)} discharged={len(obs) - len(refuted)} '
         f'paths={p.paths} wall={time.time() - t0:.1f}s')
   return 0
+
+
+def native_fallback(p, pid, reason, seed, tier):
+  seen = set()
+
+  class _O:  # a stand-in obligation so that replayers can be asked for their driver
+    result = {}
+    name = ''
+    fn = ''
+  for prefix, mk in p.replayers.items():
+    try:
+      drv = mk(_O())
+    except Exception:
+      continue
+    if not drv or not drv.get('sweep'):
+      continue
+    key = (drv['script'], drv['sweep'].get('fn'))
+    if key in seen:
+      continue
+    seen.add(key)
+    res = run_native(drv['script'], dict(drv['sweep'], seed=seed, tier=tier))
+    if res.get('failed'):
+      path = os.path.join(VERIF, 'replays', pid, 'undecided_' + re.sub(
+          r'[^A-Za-z0-9_.-]+', '_', str(key[1])) + '.json')
+      rec = {'property': pid, 'obligation': f'(no VC: {reason})', 'kind': 'native-search',
+             'detail': 'obligations could not be generated; failing input found by the bounded '
+                       'native search of the function(s) the contract covers',
+             'native': res, 'path': path,
+             'driver': {'script': drv['script'],
+                        'payload': dict(drv['sweep'], only=res.get('witness'))}}
+      write_json(path, rec)
+      return rec
+  return None
 
 
 def match_known(known, pid, o):
@@ -323,6 +370,7 @@ def write_evidence(p, path, t0, violations, unknown, known_lines=(), undecided=N
           'solver_ms_total': round(ms, 1),
           'symbolic_paths': p.paths,
           'refuted': [o.name for o in obs if o.result and o.result['status'] == 'sat'],
+          'proved_outside_known_region': [o.name for o in obs if o.result and o.result.get('known_region')],
           'unknown': [o.name for o in unknown],
           'known_findings_reported': list(known_lines),
           'bounded_standins': [
